@@ -131,6 +131,16 @@ def _wrun(job):
 def _wshrink(args):
     case, sig, budget = args
     small, steps = shrink(_PROP, case, sig, budget_s=budget)
+    if hasattr(_PROP, 'pin'):
+        # store the interleaving explicitly (run-length encoded thread choices), so that the
+        # replay does not depend on the scheduler strategy's code or PRNG
+        try:
+            pinned = _PROP.pin(small)
+            o2 = safe_run(_PROP, pinned)
+            if any(v['signature'] == sig for v in o2['violations']):
+                small = pinned
+        except Exception:
+            pass
     out = safe_run(_PROP, small)
     v = next((x for x in out['violations'] if x['signature'] == sig), None)
     return small, steps, v
